@@ -13,7 +13,7 @@
    the forward (memory) lemmas of DecRefineSafe.v in a position to apply. *)
 From Coq Require Import ZArith List Lia Bool ZifyBool.
 From LZ4V Require Import Gen.Consts Spec.BlockSpec Model.Mem Model.Dec.
-From LZ4V Require Import Proofs.DecRefineBase Proofs.DecRefineSafe Proofs.DecConverse.
+From LZ4V Require Import Proofs.DecSafe Proofs.DecRefineBase Proofs.DecRefineSafe Proofs.DecConverse.
 Import ListNotations.
 Local Open Scope Z_scope.
 
@@ -814,6 +814,221 @@ Section PRev.
         * apply blit_same_below.
         * apply (blit_lits srcm); [|fin]. subst r. apply (src_at_app _ _ _ _ Hsr).
       + apply (HL (ip s + 1) _ (tok / 16) r Hrl); try assumption; lia.
+  Qed.
+
+  (* ---------- a step that starts with op = oend (after an external-dictionary copy that was
+     cut exactly at oend) ---------- *)
+  Lemma safe_top_at_oend s (bs : list Z) :
+    src_at srcm (ip s) bs -> ip s + Z.of_nat (length bs) = iend -> 0 <= ip s < iend -> op s = oend ->
+    match safe_top true dict srcm iend oend lowPrefix rlow dictm dictSize s with
+    | Cont _ _ => False
+    | Done s' => op s' = oend /\ same_below (dm s) (dm s') oend
+    | Err _ => True
+    end.
+  Proof.
+    intros Hs Hie Hip Hoe.
+    destruct bs as [|tok r]; [cbn [length] in Hie; lia|].
+    destruct (src_at_cons _ _ _ _ Hs) as [Htokm Hsr]. cbn [length] in Hie.
+    pose proof (Hsrc (ip s)) as Htok. rewrite Htokm in Htok.
+    destruct (nibbles tok Htok) as [Hn1 _].
+    assert (Hlit : forall p1 kf len, 0 <= len -> p1 <= iend ->
+              match safe_lit true dict srcm iend oend lowPrefix rlow dictm dictSize (mkD p1 (op s) (dm s) kf) tok len with
+              | Cont _ _ => False
+              | Done s' => op s' = oend /\ same_below (dm s) (dm s') oend
+              | Err _ => True end).
+    { intros p1 kf len Hlen Hp1. unfold safe_lit. cbv zeta. cbn [ip op dm negb andb orb]. rewrite Hoe.
+      assert (E : (oend + len >? oend - MFLIMIT) || (p1 + len >? iend - (2 + 1 + LASTLITERALS)) = true) by fin.
+      rewrite E. cbv beta iota.
+      destruct (p1 + len >? iend) eqn:Ec1; cbv beta iota.
+      - destruct (oend + (iend - p1) >? oend) eqn:Ec2; cbv beta iota.
+        + assert (Ed : (oend =? oend) || (p1 + (oend - oend) >=? iend - 2) = true) by lia. rewrite Ed.
+          cbn [op dm]. split; [lia | apply blit_same_below].
+        + assert (Ed : (oend + (iend - p1) =? oend) || (p1 + (iend - p1) >=? iend - 2) = true) by lia. rewrite Ed.
+          cbn [op dm]. split; [lia | apply blit_same_below].
+      - destruct (oend + len >? oend) eqn:Ec2; cbv beta iota.
+        + assert (Ed : (oend =? oend) || (p1 + (oend - oend) >=? iend - 2) = true) by lia. rewrite Ed.
+          cbn [op dm]. split; [lia | apply blit_same_below].
+        + assert (Ed : (oend + len =? oend) || (p1 + len >=? iend - 2) = true) by lia. rewrite Ed.
+          cbn [op dm]. split; [lia | apply blit_same_below]. }
+    unfold safe_top. cbv zeta. rewrite Htokm.
+    assert (Esc : negb (tok / 16 =? RUN_MASK) && ((ip s + 1 <? shortiend iend) && (op s <=? shortoend oend)) = false) by fin.
+    rewrite Esc. cbv beta iota.
+    destruct (tok / 16 =? RUN_MASK) eqn:E15; cbv beta iota.
+    - pose proof (prvl_rev r (ip s + 1) (iend - RUN_MASK) true (ok s && rd_src iend (ip s) 1) Hsr ltac:(lia) ltac:(fin)) as HR.
+      destruct (rvl srcm iend (ip s + 1) (iend - RUN_MASK) true (ok s && rd_src iend (ip s) 1)) as [[[addl|] p'] k']; [|exact I].
+      destruct HR as (v & r1 & H1 & H2 & H3 & H4 & H5).
+      assert (Hv : 15 <= v).
+      { assert (Hbr : bytes r).
+        { unfold bytes. apply Forall_forall. intros x Hx. apply In_nth with (d := 0) in Hx. destruct Hx as (j & Hj & <-).
+          rewrite <- (Hsr j Hj). apply Hsrc. }
+        apply (read_ext_ge _ _ _ _ Hbr H1). }
+      apply Hlit; fin.
+    - apply Hlit; lia.
+  Qed.
+
+  Lemma take_firstn_skipn : forall n (l a t : list Z), take n l = Some (a, t) -> firstn n l = a /\ skipn n l = t.
+  Proof.
+    intros n l a t H. destruct (take_spec _ _ _ _ H) as [-> <-]. unfold byte in *.
+    split; [rewrite firstn_app, firstn_all, Nat.sub_diag; cbn [firstn]; apply app_nil_r
+           | rewrite skipn_app, skipn_all, Nat.sub_diag; reflexivity].
+  Qed.
+
+  Lemma sem_lits f rout tok (r : list Z) ll (r1 : list Z) :
+    read_len (tok / 16) r = Some (ll, r1) ->
+    exists Z0, sem (S f) rout (tok :: r) = Z0 ++ rev (firstn (Z.to_nat ll) r1) ++ rout.
+  Proof.
+    intros H. rewrite sem_S. unfold byte in *. rewrite H. cbv zeta.
+    set (lits := firstn (Z.to_nat ll) r1).
+    assert (H1 : exists Z0, rev lits ++ rout = Z0 ++ rev lits ++ rout) by (exists []; reflexivity).
+    destruct (skipn (Z.to_nat ll) r1) as [|o1 [|o2 r3]]; try exact H1.
+    destruct (read_len (tok mod 16) r3) as [[ml r4]|]; [|exact H1].
+    destruct (apply_seq rout (mkSeq lits (o1 + 256 * o2) (ml + 4))) as [rout2|] eqn:E; [|exact H1].
+    destruct (apply_seq_suffix _ _ _ E) as [Z1 HZ1]. cbn [s_lits] in HZ1.
+    destruct (sem_suffix f rout2 r4) as [Z2 HZ2]. exists (Z2 ++ Z1). rewrite HZ2, HZ1, <- !app_assoc. reflexivity.
+  Qed.
+
+  Lemma sem_seq f rout tok (r : list Z) ll (r1 lits : list Z) o1 o2 (r3 : list Z) ml (r4 rout2 : list Z) :
+    read_len (tok / 16) r = Some (ll, r1) -> take (Z.to_nat ll) r1 = Some (lits, o1 :: o2 :: r3) ->
+    read_len (tok mod 16) r3 = Some (ml, r4) ->
+    apply_seq rout (mkSeq lits (o1 + 256 * o2) (ml + 4)) = Some rout2 ->
+    sem (S f) rout (tok :: r) = sem f rout2 r4.
+  Proof.
+    intros H1 H2 H3 H4. rewrite sem_S. unfold byte in *. rewrite H1. cbv zeta.
+    destruct (take_firstn_skipn _ _ _ _ H2) as [Hf Hs]. rewrite Hf, Hs, H3, H4. reflexivity.
+  Qed.
+
+  (* hypotheses of the C02 theorem (Proofs/DecSafe.v), used for the bookkeeping facts of a step *)
+  Hypothesis Hrlow : rlow <= lowPrefix \/ (dict = WithPrefix64k /\ rlow <= -65535).
+  Hypothesis Hp64e : dict = WithPrefix64k -> lowPrefix = -65536.
+  Hypothesis Hexte : dict <> UsingExtDict -> dictSize = 0.
+
+  Lemma step_post (fast : bool) s :
+    ok s = true -> 0 <= ip s < iend -> 0 <= op s <= oend -> (fast = true -> op s <= oend - 64) ->
+    post iend oend (ip s + 1)
+      (if fast then fast_top true dict srcm iend oend lowPrefix rlow dictm dictSize s
+       else safe_top true dict srcm iend oend lowPrefix rlow dictm dictSize s).
+  Proof.
+    intros Hok Hip Hop Hf. destruct fast.
+    - apply fast_top_ok; auto. specialize (Hf eq_refl). lia.
+    - apply safe_top_ok; auto.
+  Qed.
+
+  (* ---------- the decoding loop on arbitrary input, partial mode ---------- *)
+  Lemma run_rev_part : forall fuel (fast : bool) s (bs rout : list Z) f (T : list Z) base,
+    sem f rout bs = T -> ok s = true ->
+    src_at srcm (ip s) bs -> bytes bs -> ip s + Z.of_nat (length bs) = iend -> 0 <= ip s < iend ->
+    0 <= op s <= oend -> (fast = true -> op s <= oend - 64) ->
+    out_at (vget (dm s)) (op s) rout -> Z.of_nat (length rout) = base + op s ->
+    (- lowPrefix + hroom <= base \/ 65535 <= base) -> (length bs < f)%nat ->
+    let '(r, s') := run true dict srcm iend oend lowPrefix rlow dictm dictSize fuel fast s in
+    0 <= r -> zero_off f bs = true \/ (r <= oend /\ img_ok (vget (dm s')) r T base).
+  Proof.
+    induction fuel as [|fuel IH]; intros fast s bs rout f T base HT Hok Hs Hb Hie Hip Hop Hfast O Hlen Hbase Hf.
+    { cbn [run]. intros H. lia. }
+    cbn [run].
+    pose proof (step_post fast s Hok Hip Hop Hfast) as HP.
+    assert (Hav : pavail (op s) rout) by (unfold pavail; lia).
+    assert (HC : ptop_post s bs rout (if fast then fast_top true dict srcm iend oend lowPrefix rlow dictm dictSize s
+                                      else safe_top true dict srcm iend oend lowPrefix rlow dictm dictSize s)).
+    { destruct fast; [apply fast_top_pcases | apply safe_top_pcases]; try assumption; try lia; try (apply Hfast; reflexivity). }
+    destruct f as [|f]; [lia|].
+    destruct (if fast then fast_top true dict srcm iend oend lowPrefix rlow dictm dictSize s
+              else safe_top true dict srcm iend oend lowPrefix rlow dictm dictSize s) as [f' s'|s'|s'];
+      cbn [ptop_post post] in HC, HP.
+    - (* Cont *)
+      destruct HP as (Hok' & Hip' & Hop' & Hf').
+      destruct HC as (_ & tok & r & ll & r1 & lits & o1 & o2 & r3 & ml & r4 & Hbs & Hrl1 & Htk & Hrl2 & Hi' & Hlen4 & _ & Hseq).
+      subst bs.
+      destruct (bytes_cons _ _ Hb) as [Htok Hbr].
+      destruct (src_at_cons _ _ _ _ Hs) as [_ Hsr].
+      destruct (nibbles tok Htok) as [Hn1 Hn2].
+      destruct (read_len_suffix srcm iend _ _ _ _ _ Hn1 Hrl1 Hbr Hsr) as (Hl1 & Hll & _ & Hs1 & Hb1).
+      destruct (take_spec _ _ _ _ Htk) as [Er1 Hlits]. unfold byte in *.
+      remember (ip s + 1 + (Z.of_nat (length r) - Z.of_nat (length r1))) as p1 eqn:Ep1.
+      rewrite Er1 in Hs1, Hb1.
+      destruct (src_at_app _ _ _ _ Hs1) as [_ Hs2]. destruct (bytes_app _ _ Hb1) as [_ Hb2].
+      destruct (src_at_cons _ _ _ _ Hs2) as [_ Hs3]. destruct (src_at_cons _ _ _ _ Hs3) as [_ Hs4].
+      destruct (bytes_cons _ _ Hb2) as [Ho1 Hb3]. destruct (bytes_cons _ _ Hb3) as [Ho2 Hb4].
+      destruct (read_len_suffix srcm iend _ _ _ _ _ Hn2 Hrl2 Hb4 Hs4) as (Hl2 & Hml & _ & Hs5 & Hb5). unfold byte in *.
+      assert (Hlr1 : length r1 = (length lits + S (S (length r3)))%nat) by (rewrite Er1, app_length; reflexivity).
+      cbn [length] in Hie, Hlen4, Hf.
+      assert (Ell : ll = Z.of_nat (length lits)) by lia.
+      assert (Hz : zero_off (S f) (tok :: r) = (o1 + 256 * o2 =? 0) || zero_off f r4).
+      { cbn [zero_off]. unfold byte in *. rewrite Hrl1, Htk, Hrl2. reflexivity. }
+      destruct Hseq as [Hz0|(Ho' & rout2 & Happ & O' & Hor)].
+      { destruct (run true dict srcm iend oend lowPrefix rlow dictm dictSize fuel f' s') as [rr s'']. intros _. left. rewrite Hz, Hz0. reflexivity. }
+      pose proof (sem_seq f rout tok r ll r1 lits o1 o2 r3 ml r4 rout2 Hrl1 Htk Hrl2 Happ) as Hsem.
+      assert (Hlen2 : length rout2 = (length rout + length lits + Z.to_nat (ml + 4))%nat).
+      { unfold apply_seq in Happ. cbn [s_lits s_off s_mlen] in Happ.
+        destruct (off_ok (o1 + 256 * o2) && (4 <=? ml + 4)); [|discriminate].
+        apply copy_match_length in Happ. rewrite app_length, rev_length in Happ. unfold byte in *. lia. }
+      assert (Hs' : src_at srcm (ip s') r4).
+      { replace (ip s') with (p1 + Z.of_nat (length lits) + 1 + 1 + (Z.of_nat (length r3) - Z.of_nat (length r4))) by lia.
+        exact Hs5. }
+      remember (Z.min (ml + 4) (oend - (op s + Z.of_nat (length lits)))) as n eqn:En.
+      destruct (Z.eq_dec n (ml + 4)) as [Hcomplete|Hcut].
+      + (* the sequence was completed *)
+        rewrite Hcomplete in O'. replace (Z.to_nat (ml + 4 - (ml + 4))) with 0%nat in O' by lia. cbn [skipn] in O'.
+        specialize (IH f' s' r4 rout2 f T base).
+        rewrite Hsem in HT.
+        assert (Hl2' : Z.of_nat (length rout2) = base + op s') by (unfold byte in *; lia).
+        specialize (IH HT Hok' Hs' Hb5 ltac:(unfold byte in *; lia) ltac:(lia) Hop' Hf' O' Hl2' Hbase ltac:(unfold byte in *; lia)).
+        destruct (run true dict srcm iend oend lowPrefix rlow dictm dictSize fuel f' s') as [rr s''].
+        intros Hr. destruct (IH Hr) as [Hzr|Himg]; [left; rewrite Hz, Hzr; apply orb_true_r | right; exact Himg].
+      + (* cut exactly at oend by a copy that continues: the next iteration must stop *)
+        assert (Hoe' : op s' = oend) by (destruct Hor as [Hc|Hc]; [congruence | exact Hc]).
+        assert (Hf'' : f' = false) by (destruct f'; [specialize (Hf' eq_refl); lia | reflexivity]). subst f'.
+        destruct (sem_suffix f rout2 r4) as [Z0 HZ0].
+        assert (Himg : forall m'', same_below (dm s') m'' oend -> img_ok (vget m'') oend T base).
+        { intros m'' Hsb. apply (img_ok_of_suffix (vget m'') oend T rout2 Z0 base (Z.to_nat (ml + 4 - n))).
+          - rewrite <- HT, Hsem. exact HZ0.
+          - rewrite Hoe' in O'. eapply out_at_v_same_below; eauto.
+          - unfold byte in *; lia.
+          - unfold byte in *; lia. }
+        destruct fuel as [|fuel]; [cbn [run]; intros H; lia|].
+        cbn [run].
+        pose proof (step_post false s' Hok' ltac:(lia) Hop' ltac:(discriminate)) as HP2. cbn beta iota in HP2.
+        pose proof (safe_top_at_oend s' r4 Hs' ltac:(lia) ltac:(lia) Hoe') as HE.
+        destruct (safe_top true dict srcm iend oend lowPrefix rlow dictm dictSize s') as [f2 s2|s2|s2]; cbn [post] in HP2.
+        * contradiction.
+        * destruct HE as [He1 He2]. intros _. right. split; [lia|]. rewrite He1. apply Himg. exact He2.
+        * intros H. lia.
+    - (* Done *)
+      destruct HP as (Hok' & Hop').
+      destruct HC as (tok & r & ll & r1 & Hbs & Hrl1 & Hll0 & HD). subst bs.
+      intros _.
+      destruct HD as [(n & Hn1 & Hn2 & Ho' & Hoe' & O')|(lits & o1 & o2 & r3 & ml & r4 & Htk & Hrl2 & Hseq)].
+      + right. split; [lia|].
+        destruct (sem_lits f rout tok r ll r1 Hrl1) as [Z0 HZ0].
+        set (L := firstn (Z.to_nat ll) r1) in *.
+        assert (HL : length L = Nat.min (Z.to_nat ll) (length r1)) by (unfold L; apply firstn_length).
+        apply (img_ok_of_suffix (vget (dm s')) (op s') T (rev L ++ rout) Z0 base (length L - n)).
+        * rewrite <- HT. exact HZ0.
+        * rewrite <- rev_firstn_skipn by lia.
+          unfold L. rewrite firstn_firstn. replace (Nat.min n (Z.to_nat ll)) with n by lia. exact O'.
+        * rewrite app_length, rev_length. unfold byte in *. lia.
+        * rewrite app_length, rev_length. unfold byte in *. lia.
+      + assert (Hz : zero_off (S f) (tok :: r) = (o1 + 256 * o2 =? 0) || zero_off f r4).
+        { cbn [zero_off]. unfold byte in *. rewrite Hrl1, Htk, Hrl2. reflexivity. }
+        destruct Hseq as [Hz0|(Ho' & rout2 & Happ & O' & Hoe')].
+        { left. rewrite Hz, Hz0. reflexivity. }
+        right. split; [lia|].
+        pose proof (sem_seq f rout tok r ll r1 lits o1 o2 r3 ml r4 rout2 Hrl1 Htk Hrl2 Happ) as Hsem.
+        destruct (sem_suffix f rout2 r4) as [Z0 HZ0].
+        destruct (take_spec _ _ _ _ Htk) as [_ Hlits]. unfold byte in *.
+        assert (Hml : 0 <= ml + 4).
+        { unfold apply_seq in Happ. cbn [s_off s_mlen] in Happ. destruct (off_ok (o1 + 256 * o2) && (4 <=? ml + 4)) eqn:E; [lia|discriminate]. }
+        assert (Hlen2 : length rout2 = (length rout + length lits + Z.to_nat (ml + 4))%nat).
+        { unfold apply_seq in Happ. cbn [s_lits s_off s_mlen] in Happ.
+          destruct (off_ok (o1 + 256 * o2) && (4 <=? ml + 4)); [|discriminate].
+          apply copy_match_length in Happ. rewrite app_length, rev_length in Happ. unfold byte in *. lia. }
+        remember (Z.min (ml + 4) (oend - (op s + Z.of_nat (length lits)))) as n eqn:En.
+        apply (img_ok_of_suffix (vget (dm s')) (op s') T rout2 Z0 base (Z.to_nat (ml + 4 - n))).
+        * rewrite <- HT, Hsem. exact HZ0.
+        * exact O'.
+        * unfold byte in *; lia.
+        * unfold byte in *; lia.
+    - destruct HP as (_ & Hipe). intros H. lia.
   Qed.
 
 End PRev.
